@@ -136,6 +136,40 @@ func BuildOverlay(repo, pkgPath string, harness []string, zzvrfDir string, nativ
 		}
 		src += "\n// appended by /verif (overlay only)\nvar VerifNowHook func() (wall int64, mono int64, ok bool)\n\nfunc verifNow() (sec int64, nsec int32, mono int64) {\n\tif VerifNowHook != nil {\n\t\tif w, m, ok := VerifNowHook(); ok {\n\t\t\treturn w / 1e9, int32(w % 1e9), m + startNano\n\t\t}\n\t}\n\treturn now()\n}\n"
 		overlay[tfile] = []byte(src)
+		// scheduling hooks for deterministic replay of thread schedules
+		root := filepath.Dir(filepath.Dir(tfile))
+		hook := func(file string, reps [][2]string, tail string) error {
+			data, err := os.ReadFile(filepath.Join(root, file))
+			if err != nil {
+				return err
+			}
+			src := string(data)
+			for _, r := range reps {
+				if !strings.Contains(src, r[0]) {
+					return fmt.Errorf("patching %s: pattern %q not found", file, r[0])
+				}
+				src = strings.Replace(src, r[0], r[1], 1)
+			}
+			overlay[filepath.Join(root, file)] = []byte(src + tail)
+			return nil
+		}
+		call := "\n\tif VerifSyncHook != nil {\n\t\tVerifSyncHook()\n\t}"
+		if err := hook("sync/mutex.go", [][2]string{{"func (m *Mutex) Lock() {", "func (m *Mutex) Lock() {" + call}},
+			"\n// appended by /verif (overlay only)\nvar VerifSyncHook func()\n"); err != nil {
+			return nil, err
+		}
+		if err := hook("sync/rwmutex.go", [][2]string{
+			{"func (rw *RWMutex) RLock() {", "func (rw *RWMutex) RLock() {" + call},
+			{"func (rw *RWMutex) Lock() {", "func (rw *RWMutex) Lock() {" + call}}, ""); err != nil {
+			return nil, err
+		}
+		vcall := "\n\tif VerifValueHook != nil {\n\t\tVerifValueHook()\n\t}"
+		if err := hook("sync/atomic/value.go", [][2]string{
+			{"func (v *Value) Load() (val any) {", "func (v *Value) Load() (val any) {" + vcall},
+			{"func (v *Value) Store(val any) {", "func (v *Value) Store(val any) {" + vcall}},
+			"\n// appended by /verif (overlay only)\nvar VerifValueHook func()\n"); err != nil {
+			return nil, err
+		}
 	}
 	return overlay, nil
 }
@@ -224,7 +258,7 @@ func (r *Result) Summary() map[string]interface{} {
 	return map[string]interface{}{
 		"entry": r.Entry, "paths": r.Paths, "infeasible": r.Infeasible, "aborted": r.Aborted, "abort_msgs": r.AbortMsgs,
 		"decisions": r.Decisions, "obligations": r.Obligations, "discharged": r.Discharged, "trivial": r.Trivial,
-		"unknown": r.Unknown, "unknown_branch": r.UnknownBranch, "queries": r.Queries, "solver_s": r.SolverTime.Seconds(),
+		"unknown": r.Unknown, "unknown_branch": r.UnknownBranch, "queries": r.Queries, "solver_s": r.SolverTime.Seconds(), "model_s": r.ModelTime.Seconds(), "models": r.Models,
 		"solver_errors": r.SolverErrors, "last_solver_err": r.LastSolverErr, "violations": r.Violations, "reached": r.Reached,
 		"assert_sites": r.AssertSites, "funcs": r.Funcs, "skipped_go": r.SkippedGo, "wall_s": r.Wall.Seconds(), "path_limit_hit": r.PathLimitHit,
 		"samples": len(r.Samples),
